@@ -1,4 +1,5 @@
 import GoUefi.Properties.C08x
+import GoUefi.Spec.SigDb
 /-! C07 — regenerated tie (shared with C08): sizes, handled GUIDs, scheme table of the current source -/
 namespace GoUefi.C07
 open GoUefi
@@ -14,5 +15,28 @@ theorem C07_extracted_facts :
       | some w => Impl.schemes.contains w) = true ∧
      (Extracted.schemes.length = 0 ∨ Extracted.schemes.length = Impl.schemes.length)) :=
   ⟨C08.C08_extracted_sizes, C08.C08_extracted_handled_guids, C08.C08_extracted_schemes⟩
+
+end GoUefi.C07
+
+/-! ### Known finding F20, as a theorem about the model
+
+`NewSignatureList` gives a list without signatures `SignatureSize` 0, and `AppendList` stores a list
+as it is. The database `[newList t]` is therefore reachable through the library's own operations,
+its encoding is 28 bytes with size field 0, and neither the specification nor the library's reader
+accepts it: the converse half of C07 fails at exactly this point (and only here: for databases that
+satisfy the C09 invariant it is `C07_built_wf_partial` / `C07_reachable_roundtrip`). The harness
+replays the same history on the Go code (corpus/C07/f20-empty-list.json). -/
+namespace GoUefi.C07
+open GoUefi
+
+theorem C07_empty_list_counterexample :
+    let db : Impl.Db := Impl.Db.appendList [] (Impl.newList Impl.guidSha256)
+    (Impl.encDb db).length = 28 ∧ Spec.decodeDb (Impl.encDb db) = none ∧ Impl.readDb (Impl.encDb db) = none := by
+  decide +kernel
+
+theorem C07_empty_x509_list_counterexample :
+    let db : Impl.Db := Impl.Db.appendList [] (Impl.newList Impl.guidX509)
+    Spec.decodeDb (Impl.encDb db) = none ∧ Impl.readDb (Impl.encDb db) = none := by
+  decide +kernel
 
 end GoUefi.C07
